@@ -162,6 +162,12 @@ def run(chk):
         inc = tuple(chk.rng.sample(names, chk.rng.randint(0, 6)))
         exc = tuple(chk.rng.sample(names, chk.rng.randint(0, 6)))
         cases.append((inc, exc, chk.rng.choice(shapes)))
+    # EVERY size of the include set from 0 to all categories (and of the exclude set, now and then), in every shape
+    for size in range(len(names) + 1):
+        for rep in range(2 if not full else 8):
+            inc = tuple(chk.rng.sample(names, size))
+            exc = tuple(chk.rng.sample(names, chk.rng.choice([0, 0, 1, 3, size])))
+            cases.append((inc, exc, ['set', 'list', 'tuple', 'dup-list'][(size + rep) % 4]))
 
     def shape(s, how):
         vals = [by_name[a] for a in s]
